@@ -1585,6 +1585,260 @@ def judge(ctx, drv, family, sc, shrink_it=True):
     return real, not (obad or cbad or ebad), checked
 
 
+# ---------------------------------------------------------------- mode I: the host's one-time initialisation
+
+def gen_init(rng):
+    """Mode I (oracle only: the model's hosts are born initialised): nobody initialises the hosts' managers but the
+    library itself, in `_handle_eio_connect` of a host's first engine.io connection.  On threaded hosts the first
+    connections OVERLAP: while the first one is inside `manager.initialize()` (before / after the base class's
+    body) 1-2 further transports of the same host run their `_handle_eio_connect` (optionally their CONNECT as
+    well) re-entrantly — what request threads arriving meanwhile do.  The asyncio twin has no switching point there
+    (`_handle_eio_connect` does not await between the flag test and the synchronous `initialize()`): its
+    connections only follow each other.  Then emits from other hosts / the write-only manager / the host itself."""
+    family = 'threading' if rng.random() < 0.75 else 'asyncio'
+    hosts = ['h%d' % i for i in range(rng.choice([2, 2, 3]))]
+    nss = rng.choice([['/'], ['/'], ['/', '/chat']])
+    transports = []
+    at = {}
+    n = 0
+    for h in hosts:
+        k = rng.choice([1, 2, 2, 3])
+        first = 't%d' % n
+        overlap = 0
+        if family == 'threading' and k > 1 and rng.random() < 0.85:
+            overlap = rng.randint(1, k - 1)
+        at[h] = rng.choice(['before', 'after', 'after'])
+        for j in range(k):
+            t = {'t': 't%d' % n, 'h': h, 'ns': sorted(rng.sample(nss, rng.randint(1, len(nss)))),
+                 'inside': None, 'connect_inside': False}
+            if 0 < j <= overlap:
+                t['inside'] = first
+                t['connect_inside'] = rng.random() < 0.4
+            transports.append(t)
+            n += 1
+    rng.shuffle(transports)
+    # a host's first connection is the first of its transports that does not arrive inside another one's
+    transports.sort(key=lambda t: t['inside'] is not None)
+    clients = [(t['t'], ns) for t in transports for ns in t['ns']]
+    rooms = []
+    for _ in range(rng.randint(0, 4)):
+        t, ns = rng.choice(clients)
+        r = [t, ns, rng.choice(PLAIN_ROOMS)]
+        if r not in rooms:
+            rooms.append(r)
+    emits = []
+    for _ in range(rng.randint(2, 5)):
+        ns = rng.choice(nss)
+        here = [c for c in clients if c[1] == ns]
+        kind = rng.choice(['all', 'all', 'sid', 'room']) if here else 'all'
+        to = None
+        if kind == 'sid':
+            to = ['sid', rng.choice(here)[0]]
+        elif kind == 'room':
+            to = ['room', rng.choice(PLAIN_ROOMS)]
+        skip = rng.choice(here)[0] if here and rng.random() < 0.25 else None
+        emits.append({'via': rng.choice(hosts + [None]), 'ns': ns, 'to': to, 'skip': skip})
+    return {'mode': 'I', 'family': family, 'hosts': hosts, 'namespaces': nss, 'transports': transports, 'at': at,
+            'rooms': rooms, 'emits': emits}
+
+
+def init_firsts(sc):
+    """host -> the transport whose `_handle_eio_connect` is the host's first"""
+    firsts = {}
+    for t in sc['transports']:
+        if t['inside'] is None:
+            firsts.setdefault(t['h'], t['t'])
+    return firsts
+
+
+def run_init(sc):
+    """-> observation: per host (initialize() calls, listeners started, flag); per emit the api result and how many
+    copies every client received; problems met while connecting"""
+    family = sc['family']
+    pw = WP.PubSubWorld(family, len(sc['hosts']), namespaces=sc['namespaces'], host_ids=sc['hosts'], lazy_init=True)
+    obs = {'problems': [], 'init': {}, 'emits': [], 'overlapped': {}}
+    sid = {}
+    try:
+        firsts = init_firsts(sc)
+        by_tid = {t['t']: t for t in sc['transports']}
+
+        def connect_ns(t):
+            for ns in t['ns']:
+                s, _rest = pw.connect(t['h'], t['t'], ns)
+                if s is None:
+                    obs['problems'].append('CONNECT of %s to %s on %s was not accepted' % (t['t'], ns, t['h']))
+                else:
+                    sid[(t['t'], ns)] = s
+
+        def open_t(t):
+            r = pw.open(t['h'], t['t'])
+            if r[0] != 'ok':
+                obs['problems'].append('engine.io connection %s on %s: %r' % (t['t'], t['h'], r))
+
+        later = []
+        for t in sc['transports']:
+            if t['inside'] is not None and firsts.get(t['h']) == t['inside']:
+                continue
+            if firsts.get(t['h']) == t['t']:
+                inner = [u for u in sc['transports'] if u['inside'] == t['t'] and u['h'] == t['h']]
+
+                def hook(inner=inner, h=t['h']):
+                    # request threads that arrive while the first one is inside manager.initialize()
+                    obs['overlapped'][h] = [u['t'] for u in inner]
+                    for u in inner:
+                        open_t(u)
+                        if u['connect_inside']:
+                            connect_ns(u)
+                if inner:
+                    pw.init_hook(t['h'], hook, sc['at'].get(t['h'], 'after'))
+                open_t(t)
+                connect_ns(t)
+                later += [u for u in inner if not u['connect_inside']]
+            else:
+                open_t(t)
+                connect_ns(t)
+        for u in later:
+            connect_ns(u)
+        for t, ns, room in sc['rooms']:
+            if (t, ns) in sid:
+                r = pw.api(by_tid[t]['h'], 'enter_room', sid[(t, ns)], room, namespace=ns)
+                if r[0] != 'ok':
+                    obs['problems'].append('enter_room(%s,%s,%s): %r' % (t, ns, room, r))
+        for h in sc['hosts']:
+            pw.deliver(h, BIG)
+        for t in sc['transports']:
+            pw.sent(t['t'])
+        for h in sc['hosts']:
+            obs['init'][h] = list(pw.init_state(h))
+        for i, e in enumerate(sc['emits']):
+            ev = 'e%d' % i
+            target = None
+            if e['to'] is not None:
+                target = sid.get((e['to'][1], e['ns']), 'nobody') if e['to'][0] == 'sid' else e['to'][1]
+            skip = sid.get((e['skip'], e['ns'])) if e['skip'] is not None else None
+            if e['via'] is None:
+                res = pw.wo_emit(ev, i, namespace=e['ns'], room=target, skip_sid=skip)
+            else:
+                res = pw.api(e['via'], 'emit', ev, i, to=target, skip_sid=skip, namespace=e['ns'])
+            how = [pw.deliver(h, BIG) for h in sc['hosts']]
+            got = {}
+            for t in sc['transports']:
+                for f in canon_frames(pw.sent(t['t'])):
+                    key = '%s %s' % (t['t'], f[1]) if f[0] == 'event' and f[2] == [ev, i] else '%s ? %r' % (t['t'], f)
+                    got[key] = got.get(key, 0) + 1
+            obs['emits'].append({'res': list(res), 'deliver': [list(x) for x in how], 'got': got})
+        obs['log'] = [list(x) for x in pw.log if x[2] != 'pubsub listen() exited unexpectedly']
+    finally:
+        pw.close()
+    return obs
+
+
+def init_expected(sc, e):
+    """the clients an emit addresses, from the scenario alone: {'<tid> <ns>'}"""
+    out = set()
+    for t in sc['transports']:
+        if e['ns'] not in t['ns'] or e['skip'] == t['t']:
+            continue
+        if e['to'] is None or (e['to'][0] == 'sid' and e['to'][1] == t['t']) or \
+                (e['to'][0] == 'room' and [t['t'], e['ns'], e['to'][1]] in sc['rooms']):
+            out.add('%s %s' % (t['t'], e['ns']))
+    return out
+
+
+def init_failures(sc, obs):
+    """C07 for a cluster whose hosts initialise themselves: every host that accepted a connection runs
+    `initialize()` once and has exactly ONE listener on the channel, and every emit — wherever it is issued —
+    reaches every addressed client exactly once and nobody else"""
+    bad = list(obs['problems'])
+    firsts = init_firsts(sc)
+    host_of = {t['t']: t['h'] for t in sc['transports']}
+    for i, (e, o) in enumerate(zip(sc['emits'], obs['emits'])):
+        if o['res'][0] != 'ok':
+            bad.append('emit #%d %s raised %s' % (i, json.dumps(e), o['res'][1]))
+        for d in o['deliver']:
+            if d[0] != 'ok':
+                bad.append('emit #%d: a listener ended with %r' % (i, d))
+        want = init_expected(sc, e)
+        for key in sorted(set(o['got']) | want):
+            n = o['got'].get(key, 0)
+            w = 1 if key in want else 0
+            if n != w:
+                bad.append('emit #%d %s: client %s (host %s) received %d copies, the statement says exactly %d'
+                           % (i, json.dumps(e), key, host_of.get(key.split(' ')[0]), n, w))
+    for h in sc['hosts']:
+        calls, listeners, flag = obs['init'][h]
+        want = 1 if h in firsts else 0
+        if calls != want or listeners != want or flag != bool(want):
+            bad.append('host %s (first connections: %s%s): manager.initialize() ran %d times, %d pub/sub listeners '
+                       'started, manager_initialized=%r; a host that accepted a connection is initialised exactly '
+                       'once and has exactly one listener'
+                       % (h, firsts.get(h), ' with %s arriving inside initialize()' % obs['overlapped'][h]
+                          if obs['overlapped'].get(h) else '', calls, listeners, flag))
+    for l in obs.get('log', []):
+        bad.append('listener logged %r' % (l,))
+    return bad
+
+
+def shrink_init(sc, budget=60):
+    def fails(c):
+        return bool(init_failures(c, run_init(c)))
+
+    cur = sc
+    for key in ('emits', 'rooms', 'transports'):
+        i = len(cur[key]) - 1
+        while i >= 0 and budget > 0:
+            items = cur[key][:i] + cur[key][i + 1:]
+            cand = dict(cur, **{key: items})
+            if key == 'transports':
+                gone = cur[key][i]['t']
+                cand['transports'] = [dict(t, inside=None, connect_inside=False) if t['inside'] == gone else t
+                                      for t in items]
+                cand['transports'].sort(key=lambda t: t['inside'] is not None)
+                cand['rooms'] = [r for r in cur['rooms'] if r[0] != gone]
+                cand['emits'] = [dict(e, skip=None if e['skip'] == gone else e['skip']) for e in cur['emits']
+                                 if not (e['to'] and e['to'] == ['sid', gone])]
+            budget -= 1
+            if cand['transports'] and cand['emits'] and fails(cand):
+                cur = cand
+            i -= 1
+    return cur
+
+
+def run_init_cases(ctx, corpus):
+    n = ctx.scale(120, 1500)
+    cases = [c for c in corpus] + [gen_init(ctx.rng) for _ in range(n)]
+    failures = overlapping = 0
+    sample = None
+    for sc in cases:
+        if failures >= 2:
+            break
+        obs = run_init(sc)
+        ctx.count('init.history.%s' % sc['family'])
+        for h in sc['hosts']:
+            inner = obs['overlapped'].get(h) or []
+            ctx.count('init.host.%s' % ('first_connections_overlap.%s_initialize_body' % sc['at'][h] if inner
+                                        else 'connections_follow_each_other'))
+            if inner:
+                overlapping += 1
+                ctx.count('init.connections_arriving_inside_initialize', len(inner))
+                if any(t['connect_inside'] for t in sc['transports'] if t['t'] in inner):
+                    ctx.count('init.host.overlapping_client_also_CONNECTs_inside')
+        for e in sc['emits']:
+            ctx.count('init.emit.via.%s' % ('write_only' if e['via'] is None else 'host'))
+            ctx.count('init.emit.copies_checked', len(sc['transports']))
+        bad = init_failures(sc, obs)
+        if bad:
+            failures += 1
+            small = shrink_init(sc)
+            sobs = run_init(small)
+            sbad = init_failures(small, sobs) or bad
+            ctx.violation('oracle', '%s mode I: %s' % (sc['family'], sbad[0]),
+                          dict(small, failures=sbad[:6], observed=jl(sobs)))
+        elif sample is None and overlapping and len(sc['transports']) <= 4:
+            sample = sc
+    return len(cases), overlapping, sample
+
+
 # ---------------------------------------------------------------- entry points
 
 def run(ctx):
@@ -1608,12 +1862,19 @@ def run(ctx):
     samples = []
     unraced_checked = 0
     raced_ops = 0
+    init_evals = init_overlaps = 0
+    init_sample = None
     try:
         cases = []
+        init_corpus = []
         for path in sorted(glob.glob(os.path.join(C.ROOT, 'corpus', 'C07', '*.json'))):
             r = json.load(open(path))
             r = r.get('replay', r)
+            if r.get('mode') == 'I':
+                init_corpus.append(r)
+                continue
             cases.append((r, 'corpus'))
+        init_evals, init_overlaps, init_sample = run_init_cases(ctx, init_corpus)
         n_raced = ctx.scale(260, 4000)
         every = max(1, n_hist // n_raced)
         for i in range(n_hist):
@@ -1684,6 +1945,20 @@ def run(ctx):
                 '(mode R) a fan-out during which the set of addressed clients of the host changed',
         'samples': samples, 'traces_validated_against_impl': validated,
         'raced_fanouts': raced_ops,
+        'self_initialising_clusters': init_evals,
+        'hosts_with_overlapping_first_connections': init_overlaps,
+        'self_initialising_rule': 'mode I histories (ORACLE ONLY: the model\'s hosts are born initialised): nobody '
+                                  'but the library initialises the managers (`_handle_eio_connect` of a host\'s first '
+                                  'engine.io connection); every listener the library starts is a subscription of its '
+                                  'own and all of them are driven.  On threaded hosts 1-2 further first connections '
+                                  'run re-entrantly inside `manager.initialize()` of the first one (before / after the '
+                                  'base body, optionally with their CONNECT); the asyncio twin has no switching point '
+                                  'between the flag test and the synchronous initialize(), so its connections only '
+                                  'follow each other.  Judged by the statement: initialize() once and exactly one '
+                                  'listener per host that accepted a connection; every emit (issued on another host, '
+                                  'the write-only manager or the host itself) reaches every addressed client exactly '
+                                  'once and nobody else',
+        'self_initialising_sample': init_sample,
         'raced_fanouts_rule': 'mode R histories (real threaded hosts and asyncio twins, ORACLE ONLY: the Lean model '
                               'treats an emit as atomic, so there is no model correspondence for them): inside the '
                               'k-th transport write of an emit\'s local fan-out (k = 0..n-1, before or after the '
@@ -1712,6 +1987,22 @@ def run(ctx):
 
 def replay(ctx, r):
     r = r.get('replay', r)
+    if r.get('mode') == 'I':
+        sc = {k: r[k] for k in ('mode', 'family', 'hosts', 'namespaces', 'transports', 'at', 'rooms', 'emits')}
+        obs = run_init(sc)
+        print('--- %s, hosts initialised by their first connections' % sc['family'])
+        for t in sc['transports']:
+            print('transport %s' % json.dumps(t))
+        for h in sc['hosts']:
+            print('host %s: initialize() calls / listeners started / manager_initialized = %r; arrived inside '
+                  'initialize(): %r' % (h, obs['init'][h], obs['overlapped'].get(h, [])))
+        for e, o in zip(sc['emits'], obs['emits']):
+            print('emit %s\n      addressed %r\n      received  %r' % (json.dumps(e), sorted(init_expected(sc, e)),
+                                                                       o['got']))
+        bad = init_failures(sc, obs)
+        print('oracle: %s' % ('FAILS: ' + '; '.join(bad) if bad else 'holds'))
+        print('correspondence: not applicable (mode I is oracle-only: the model\'s hosts are born initialised)')
+        return 1 if bad else 0
     sc = {k: r[k] for k in ('mode', 'hosts', 'namespaces', 'ops')}
     fams = [r['family']] if r.get('family') else ['threading', 'asyncio']
     drv = C.Driver('pubsub')
